@@ -194,6 +194,9 @@ func init() {
 	}
 }
 
+// c18Partner: an ordinary browser preflight (allowed by most configuration kinds) that alternates with the sized request
+var c18Partner = preflightReq("https://partner.example.com", "PUT", []string{"x-listed-1"}, false).httpReq()
+
 const (
 	c18Ceiling = 10 // absolute bound on allocations per request (today: 0-2)
 	c18Slack   = 3  // tolerated difference between the smallest sizes and any other size (different paths differ by small constants)
@@ -202,7 +205,7 @@ const (
 func TestVerif_C18(t *testing.T) {
 	r := newRun(t, "C18")
 	r.Rule("configuration kinds {allow-all, discrete, `*` headers anonymous, anonymous+authorization, credentialed, PNA, PNA no-cors} x debug off/on x 70 request kinds (incl. label-count families of the Origin - plain, A-label, numeric, hyphen, underscore - at 12 fine-grained sizes below the Origin length cap), each with one attacker-sized field (Origin bytes / labels / field lines, ACRM bytes, ACRH bytes / elements / empty elements / OWS run / field lines; list elements and bytes drawn from lower-case, mixed-case, upper-case, non-token, non-ASCII, padded and long templates) x sizes 1..10^5 bytes and 1..10^4 elements (quick) or 14 sizes up to 10^6 bytes and 11 up to 10^5 elements (thorough). " +
-		"evaluation = one AllocsPerRun measurement (runs+1 ServeHTTP calls) with a reusable minimal writer and a no-op handler on the plain build; oracle: allocations <= " + fmt.Sprint(c18Ceiling) + " at every size and allocations at any size <= (maximum over the two smallest sizes) + " + fmt.Sprint(c18Slack) + ". non-trivial = measurement at size >= 100, distinct by construction")
+		"Each cell is measured twice: the sized request repeated, and the sized request alternating with an ordinary browser preflight (state carried from request to request). evaluation = one AllocsPerRun measurement (runs+1 ServeHTTP calls or pairs) with a reusable minimal writer and a no-op handler on the plain build; oracle: allocations <= " + fmt.Sprint(c18Ceiling) + " at every size and allocations at any size <= (maximum over the two smallest sizes) + " + fmt.Sprint(c18Slack) + ". non-trivial = measurement at size >= 100, distinct by construction")
 	r.Assume("the harness's writer, handler and pre-built request allocate nothing per call; GOMAXPROCS(1) during the measurement (testing.AllocsPerRun)")
 	if r.Variant != "plain" {
 		r.Assume("NOTE: measured on a non-plain build variant; counts include instrumentation")
@@ -237,8 +240,9 @@ func TestVerif_C18(t *testing.T) {
 				if strings.Contains(rk.name, "(fine sizes)") {
 					sizes = []int{1, 2, 3, 5, 8, 12, 16, 20, 24, 28, 40, 60}
 				}
-				smallMax := -1.0
+				smallMax, smallMaxI := -1.0, -1.0
 				allocs := make([]float64, len(sizes))
+				allocsI := make([]float64, len(sizes)) // the sized request ALTERNATING with an ordinary browser preflight
 				for si, n := range sizes {
 					req := rk.mk(n).httpReq()
 					w := &reusableWriter{h: make(http.Header, 8)}
@@ -252,14 +256,38 @@ func TestVerif_C18(t *testing.T) {
 						h.ServeHTTP(w, req)
 					})
 					allocs[si] = a
-					l.evals++
+					// state carried from one request to the next (lesson of seeded change C18-h: a memo of the last
+					// request, missed - and refilled with attacker-sized data - whenever requests alternate)
+					ai := testing.AllocsPerRun(runs, func() {
+						clear(w.h)
+						h.ServeHTTP(w, c18Partner)
+						clear(w.h)
+						h.ServeHTTP(w, req)
+					})
+					allocsI[si] = ai
+					l.evals += 2
 					if n >= 100 {
-						l.nontrivN++
+						l.nontrivN += 2
 					}
 					if si < 2 && a > smallMax {
 						smallMax = a
 					}
+					if si < 2 && ai > smallMaxI {
+						smallMaxI = ai
+					}
 					dist[fmt.Sprintf("allocs_per_request_%02d", int(a))]++
+					dist[fmt.Sprintf("allocs_per_alternating_pair_%02d", int(ai))]++
+				}
+				for si, n := range sizes {
+					ai := allocsI[si]
+					if ai > 2*c18Ceiling {
+						r.Violate("allocs-above-ceiling-alternating", "allocs", fmt.Sprintf("%s, debug=%v, %s alternating with an ordinary preflight, size %d: %.0f allocations per pair of requests (ceiling %d); by size %v: %v", cc.name, dbg, rk.name, n, ai, 2*c18Ceiling, sizes, allocsI), c18Case{cc.name, dbg, rk.name, n})
+						break
+					}
+					if ai > smallMaxI+c18Slack {
+						r.Violate("allocs-grow-with-size-alternating", "allocs", fmt.Sprintf("%s, debug=%v, %s alternating with an ordinary preflight: %.0f allocations per pair of requests at size %d vs at most %.0f at the two smallest sizes; by size %v: %v", cc.name, dbg, rk.name, ai, n, smallMaxI, sizes, allocsI), c18Case{cc.name, dbg, rk.name, n})
+						break
+					}
 				}
 				for si, n := range sizes {
 					a := allocs[si]
